@@ -352,7 +352,8 @@ def passthrough_case(rec, rng):
     import typhon.files.utils as U
     root = scratch_dir("c12p")
     try:
-        for name in ("plain.dat", "x.nc", "noext", "a.gz.txt", "b.zipx"):
+        for name in ("plain.dat", "x.nc", "noext", "a.gz.txt", "b.zipx", "UPPER.GZ", "Mixed.Zip",
+                     "data.nc.XZ", "x.BZ2"):
             p = os.path.join(root, name)
             rec.ev()
             rec.count("passthrough.calls")
@@ -496,6 +497,58 @@ def concurrent_case(rec, rng, fmt):
         shutil.rmtree(root, ignore_errors=True)
 
 
+def nested_case(rec, rng, fmt):
+    """Two archives with the same base name in different directories, decompressed in nested blocks
+    (and the same archive opened twice): each block sees its own bytes, each copy is gone afterwards."""
+    import typhon.files.utils as U
+    root = scratch_dir("c12n")
+    old_tmp = tempfile.tempdir
+    try:
+        systmp = os.path.join(root, "systmp")
+        os.mkdir(systmp)
+        tempfile.tempdir = systmp
+        xtmp = os.path.join(root, "xtmp")
+        os.mkdir(xtmp)
+        case = {"kind": "nested", "fmt": fmt}
+        paths, contents = [], []
+        for k in range(2):
+            d = os.path.join(root, "day%d" % k)
+            os.mkdir(d)
+            p = os.path.join(d, "product_1200.dat." + fmt)
+            c = content_bytes("random", 100 + k) + bytes([k])
+            with U.compress(p) as tf:
+                with open(tf, "wb") as fh:
+                    fh.write(c)
+            paths.append(p)
+            contents.append(c)
+        for tmparg in (None, xtmp):
+            for a, b in ((0, 1), (0, 0)):
+                rec.ev()
+                rec.count("nested.runs")
+                try:
+                    with U.decompress(paths[a], tmpdir=tmparg) as pa:
+                        with U.decompress(paths[b], tmpdir=tmparg) as pb:
+                            db = open(pb, "rb").read()
+                            da_inner = open(pa, "rb").read()
+                        da = open(pa, "rb").read()
+                    ok = da == contents[a] and da_inner == contents[a] and db == contents[b]
+                    if not ok:
+                        rec.violation("roundtrip", case, {"why": "nested decompress blocks disturb each other",
+                                                          "same_archive": a == b})
+                    if os.path.exists(pa) or os.path.exists(pb):
+                        rec.violation("decompressed-copy-remains", case, {"same_archive": a == b})
+                except Exception as exc:
+                    rec.violation("compress-exception", case, {"phase": "nested decompress",
+                                                               "exception": repr(exc), "same_archive": a == b})
+                left = audit.snapshot(systmp) + audit.snapshot(xtmp)
+                if left:
+                    rec.violation("debris", case, {"where": "tmpdir after nested decompress", "left": left[:4]})
+        rec.nontriv(["nested", fmt], fmt)
+    finally:
+        tempfile.tempdir = old_tmp
+        shutil.rmtree(root, ignore_errors=True)
+
+
 def gen_scenarios(rng, fmt, n):
     out = []
     for _ in range(n):
@@ -550,11 +603,14 @@ def run_shard(spec, rec):
     corrupt_cases(rec, rng, fmt, 6 if spec["n"] <= 3 else 40)
     for _ in range(1 if spec["n"] <= 3 else 10):
         concurrent_case(rec, rng, fmt)
+    nested_case(rec, rng, fmt)
 
 
 def replay(case, rec):
     if case.get("kind") == "scenario":
         run_scenario(rec, case["sc"], case.get("fault"))
+    elif case.get("kind") == "nested":
+        nested_case(rec, rng_for(0, "r"), case["fmt"])
     elif case.get("kind") == "concurrent":
         concurrent_case(rec, rng_for(0, "r"), case["fmt"])
     elif case.get("kind") == "corrupt":
